@@ -348,6 +348,10 @@ impl<'a> Data<'a> {
 struct MessageSet<'a> {
     #[allow(dead_code)]
     raw_data: Cow<'a, [u8]>, // ~ this field is used to potentially "own" the underlying vector
+    // ~ the uncompressed data of compressed entries; the messages of
+    // such entries point into these buffers
+    #[allow(dead_code)]
+    owned_data: Vec<Vec<u8>>,
     messages: Vec<Message<'a>>,
 }
 
@@ -383,6 +387,7 @@ impl<'a> MessageSet<'a> {
         )?;
         return Ok(MessageSet {
             raw_data: Cow::Owned(data),
+            owned_data: ms.owned_data,
             messages: ms.messages,
         });
     }
@@ -390,6 +395,7 @@ impl<'a> MessageSet<'a> {
     fn from_slice(raw_data: &[u8], req_offset: i64, validate_crc: bool) -> Result<MessageSet<'_>> {
         let mut r = ZReader::new(raw_data);
         let mut msgs = Vec::new();
+        let mut owned_data = Vec::new();
         while !r.is_empty() {
             match MessageSet::next_message(&mut r, validate_crc) {
                 // this is the last messages which might be
@@ -420,14 +426,16 @@ impl<'a> MessageSet<'a> {
                         #[cfg(feature = "gzip")]
                         c if c == Compression::GZIP as i8 => {
                             let v = gzip::uncompress(pmsg.value)?;
-                            return MessageSet::from_vec(v, req_offset, validate_crc);
+                            let inner = MessageSet::from_vec(v, req_offset, validate_crc)?;
+                            inner.append_to(&mut msgs, &mut owned_data);
                         }
                         #[cfg(feature = "snappy")]
                         c if c == Compression::SNAPPY as i8 => {
                             use std::io::Read;
                             let mut v = Vec::new();
                             SnappyReader::new(pmsg.value)?.read_to_end(&mut v)?;
-                            return MessageSet::from_vec(v, req_offset, validate_crc);
+                            let inner = MessageSet::from_vec(v, req_offset, validate_crc)?;
+                            inner.append_to(&mut msgs, &mut owned_data);
                         }
                         _ => return Err(Error::UnsupportedCompression),
                     }
@@ -436,8 +444,20 @@ impl<'a> MessageSet<'a> {
         }
         Ok(MessageSet {
             raw_data: Cow::Borrowed(raw_data),
+            owned_data,
             messages: msgs,
         })
+    }
+
+    // ~ moves the messages of this (uncompressed, inner) set to
+    // `msgs` and the buffers they point into to `owned_data`; moving
+    // a vector does not move its heap data, so the messages stay valid
+    fn append_to(self, msgs: &mut Vec<Message<'a>>, owned_data: &mut Vec<Vec<u8>>) {
+        if let Cow::Owned(data) = self.raw_data {
+            owned_data.push(data);
+        }
+        owned_data.extend(self.owned_data);
+        msgs.extend(self.messages);
     }
 
     fn next_message<'b>(
